@@ -1024,6 +1024,9 @@ func schedSharedMessage() {
 }
 
 // Bodies re-run by C11 under the race-instrumented build.
+// SchedSharedMessage is also run under C17.
+func SchedSharedMessage() { schedSharedMessage() }
+
 var RaceBodies = map[string]func(){
 	"c03-send-recv-reply": schedSendRecvReply,
 	"c03-two-ctx":         schedTwoCtx,
